@@ -9,7 +9,6 @@ import (
 
 	"github.com/dominant-strategies/go-quai/common"
 	"github.com/dominant-strategies/go-quai/core/types"
-	"github.com/dominant-strategies/go-quai/core/vm"
 	"github.com/dominant-strategies/go-quai/crypto"
 
 	"verif/internal/hnet"
@@ -29,8 +28,14 @@ type ownerContract struct {
 	sent     bool
 }
 
+// lockupPrecompile is the address of the lockup precompile of zone 0-0:
+// <zone prefix byte> 00..00 0A (vm.LockupContractAddresses is only filled once
+// a core has started; runScenario asserts that both agree).
 func lockupPrecompile() common.Address {
-	return vm.LockupContractAddresses[[2]byte{hnet.ZoneLoc[0], hnet.ZoneLoc[1]}]
+	b := make([]byte, 20)
+	b[0] = hnet.ZoneLoc.BytePrefix()
+	b[19] = 0x0a
+	return common.BytesToAddress(b, hnet.ZoneLoc)
 }
 
 func ownerRuntime() []byte {
@@ -44,11 +49,11 @@ func ownerRuntime() []byte {
 	c = append(c, 0x60, 0x00)                         // value
 	c = append(c, 0x73)                               // PUSH20 lockup precompile
 	c = append(c, la...)
-	c = append(c, 0x5a, 0xf1)             // GAS CALL
-	c = append(c, 0x36, 0x60, 53, 0x14)   // calldatasize == 53
-	c = append(c, 0x16)                   // AND
-	dest := byte(len(c) + 3 + 5)          // after PUSH1 dest, JUMPI, and the 5-byte revert sequence
-	c = append(c, 0x60, dest, 0x57)       // JUMPI
+	c = append(c, 0x5a, 0xf1)                   // GAS CALL
+	c = append(c, 0x36, 0x60, 53, 0x14)         // calldatasize == 53
+	c = append(c, 0x16)                         // AND
+	dest := byte(len(c) + 3 + 5)                // after PUSH1 dest, JUMPI, and the 5-byte revert sequence
+	c = append(c, 0x60, dest, 0x57)             // JUMPI
 	c = append(c, 0x60, 0x00, 0x60, 0x00, 0xfd) // revert(0,0)
 	if int(dest) != len(c) {
 		panic("assembler: bad jump destination")
